@@ -380,6 +380,8 @@ def _specs(tier):
         VarSpec('x', ('x',), attrs={'units': 'm'}, coord=True),
         VarSpec('A', ('t', 'x'), attrs=A, kind='int'),
         VarSpec('M', ('t', 'x'), masked=(1, 3), kind='int'),
+        # masked without a declared fill value
+        VarSpec('N', ('t', 'x'), masked=(2,), kind='int', declared=False),
         VarSpec('T', ('t',), kind='int'),
     ], attrs={'title': 'test'}, label='t2x3')
     s2 = FileSpec([('t', 2, True), ('y', 2, False), ('x', 3, False)], [
